@@ -127,7 +127,9 @@ pub fn invariants(w: &World, r: usize, e: &Edge) -> Vec<(String, String)> {
 
 pub fn run(args: &Args) -> Report {
     let mut rep = Report::new("C05", "model_checking");
-    let (w, r) = l1::world(args.seed);
+    let (w, r) = l1::world_fb(args.seed, args.replay.as_ref().and_then(|rp| rp["replay"]["first_block"].as_u64()).unwrap_or(0));
+    // the minimal-alphabet (deep) pass runs on a chain whose genesis starts at block 3
+    let (w3, _) = l1::world_fb(args.seed, 3);
     let total = args.tier.pick(50, 1500);
     let cfg = l1::L1Cfg {
         max_view: args.tier.pick(2, 3),
@@ -162,7 +164,12 @@ pub fn run(args: &Args) -> Report {
     let votes_cfg = l1::L1Cfg { narrow: false, full: false, deadline: Instant::now() + Duration::from_secs(total / 5), max_view: cfg.max_view, crashes: false, flood: false, max_states: cfg.max_states, seed: cfg.seed };
     let res_v = l1::explore_alphabet(&w, r, &votes_cfg, l1::votes_alphabet(&w, r, &votes_cfg), &oracle);
     let narrow = l1::L1Cfg { deadline: Instant::now() + Duration::from_secs(total * 3 / 10), ..narrow };
-    let res_n = if res_v.violations.is_empty() { l1::explore(&w, r, &narrow, &oracle) } else { l1::L1Result::default() };
+    let oracle3 = |e: &Edge| {
+        let mut v = conformance(&w3, r, e);
+        v.extend(invariants(&w3, r, e));
+        v
+    };
+    let res_n = if res_v.violations.is_empty() { l1::explore(&w3, r, &narrow, &oracle3) } else { l1::L1Result::default() };
     let cfg = l1::L1Cfg { deadline: Instant::now() + Duration::from_secs(total / 2), ..cfg };
     let res = if res_n.violations.is_empty() && res_v.violations.is_empty() { l1::explore(&w, r, &cfg, &oracle) } else { l1::L1Result::default() };
     for (k, wh, rp) in res_v.violations.iter().chain(res_n.violations.iter()).chain(res.violations.iter()) {
@@ -177,6 +184,7 @@ pub fn run(args: &Args) -> Report {
     let res = if res.states == 0 { res_n } else { res };
     rep.coverage = l1::coverage_json(&res, &cfg, "every reachable local state of one real replica of K4=[2,2,1,1] (weight-1 validator, the other three keys held by the environment) x every input of the finite adversarial alphabet (valid, stale, future-view, wrong leader, non-member, bad signature, other epoch, under-weight certificate, invalid / oversized / missing / superfluous payload, timer, block sync, restart); on every transition: lock-step agreement with the reference replica (outcome, abstract state, emitted messages), monotonicity of view / certificates / durable state / store, justification of view changes, self-justification of emitted messages");
     rep.coverage["minimal_alphabet_pass"] = narrow_cov;
+    rep.coverage["genesis_first_block"] = serde_json::json!({"wide_pass": 0, "minimal_alphabet_pass": 3, "vote_by_vote_pass": 0});
     rep.coverage["vote_by_vote_pass"] = l1::coverage_json(&res_v, &votes_cfg, "vote-by-vote alphabet (commit votes for (0,X) and plain timeout votes of every other validator for views up to max+1, view timer): certificates, also of future views, form inside the replica");
     rep.assumptions = vec![
         "certificate / signature validity is decided by the roles library (the subject of C04)".into(),
